@@ -19,7 +19,7 @@
 (***************************************************************************)
 EXTENDS Naturals, Integers, Sequences, FiniteSets, TLC
 
-NoConn == [st |-> "none", key |-> 0, cdrop |-> FALSE, cgone |-> FALSE]
+NoConn == [st |-> "none", key |-> 0, cdrop |-> FALSE, cgone |-> FALSE, cclosed |-> FALSE]
 NoCall == [k |-> 0, st |-> "none", tr |-> "", smp |-> FALSE, dl |-> 0, sent |-> FALSE, id |-> -1, ans |-> FALSE, canc |-> 0, P |-> 0, h |-> "none", starts |-> 0, gate |-> FALSE, inc |-> 0]
 
 YInit(n, limit, mif) ==
@@ -43,11 +43,11 @@ YAdmitted(y, k) ==
                 "a channel was admitted while n channels of its key were alive")
   IN SetConn(y1, k, [c EXCEPT !.st = "alive"])
 
-YConnect(y0, k, key) == LET y == y0 IN SetConn(y, k, [st |-> "offered", key |-> key, cdrop |-> FALSE, cgone |-> FALSE])
+YConnect(y0, k, key) == LET y == y0 IN SetConn(y, k, [st |-> "offered", key |-> key, cdrop |-> FALSE, cgone |-> FALSE, cclosed |-> FALSE])
 
 YArrive(y0, k, key) ==
   LET y == y0 IN
-  SetConn(y, k, [st |-> "deciding", key |-> key, cdrop |-> Conn(y, k).cdrop, cgone |-> Conn(y, k).cgone])
+  SetConn(y, k, [st |-> "deciding", key |-> key, cdrop |-> Conn(y, k).cdrop, cgone |-> Conn(y, k).cgone, cclosed |-> Conn(y, k).cclosed])
 
 (* the server side of connection k was dropped *)
 YServerDrop(y0, k) ==
@@ -67,6 +67,17 @@ YServerDrop(y0, k) ==
 (* the client side of connection k is gone: its dispatch ended (it closes the transport first) *)
 YClientGone(y, k) == IF k \in DOMAIN y.conn THEN SetConn(y, k, [y.conn[k] EXCEPT !.cgone = TRUE]) ELSE y
 
+(* the client's dispatch closes the write side of connection k: everything queued has been transmitted before, *)
+(* in particular the cancellation of every abandoned call whose request went out and was not answered         *)
+YClientClose(y, k) ==
+  IF k \notin DOMAIN y.conn THEN y
+  ELSE LET owed == {x \in CallsOf(y, k) : y.call[x].st = "abandoned" /\ y.call[x].sent /\ ~y.call[x].ans
+                                           /\ y.call[x].canc = 0 /\ y.now < y.call[x].dl}
+           y1 == Bad(y, "bad10", ~y.down /\ owed # {} /\ ~y.conn[k].cclosed,
+                     "the client closed the write side while the cancellation of an abandoned call was still queued")
+       IN SetConn(y1, k, [y1.conn[k] EXCEPT !.cclosed = TRUE])
+WrittenAfterClose(y, k) == Bad(y, "bad10", Conn(y, k).cclosed, "the client wrote a message after closing the write side")
+
 YCall(y0, c, k, dl, tr, smp) ==
   LET y == y0 IN
   SetCall(y, c, [NoCall EXCEPT !.k = k, !.st = "pending", !.dl = dl, !.tr = tr, !.smp = smp])
@@ -77,7 +88,7 @@ Potential(y, c, k) == {x \in CallsOf(y, k) \ {c} : y.call[x].sent /\ ~y.call[x].
 
 (* the client wrote the request of call c *)
 YSend(y0, c, k, id) ==
-  LET y == y0
+  LET y == WrittenAfterClose(y0, k)
       r == Call(y, c)
       y1 == Bad(Bad(y, "bad01", r.st = "none" \/ r.k # k, "a request was transmitted on a connection its call was not made on"),
                 "bad01", r.sent, "the request of one call was transmitted twice")
@@ -85,8 +96,9 @@ YSend(y0, c, k, id) ==
      ELSE SetCall(y1, c, [r EXCEPT !.sent = TRUE, !.id = id, !.P = Cardinality(Potential(y1, c, k))])
 
 (* the client wrote a cancellation for request id `id` on connection k *)
-YCancelOut(y, k, id) ==
-  LET xs == {x \in CallsOf(y, k) : y.call[x].sent /\ y.call[x].id = id}
+YCancelOut(y0, k, id) ==
+  LET y == WrittenAfterClose(y0, k)
+      xs == {x \in CallsOf(y, k) : y.call[x].sent /\ y.call[x].id = id}
       y1 == Bad(y, "bad03", xs = {}, "a cancellation was transmitted for a request that was never transmitted")
       y2 == Bad(y1, "bad03", \E x \in xs : y.call[x].canc >= 1, "two cancellations were transmitted for one request")
       y3 == Bad(y2, "bad03", \E x \in xs : y.call[x].st \in {"ok", "throttled"}, "a cancellation was transmitted for a call that resolved normally")
